@@ -399,7 +399,7 @@ KO3 == <<"a", "b", "c">>
 CallsQuick == TLCEval( DefaultCalls({<<K1>>, <<K1, K2>>}, DVsQuick)
               \cup KeyDictCalls({<<K1>>, <<K1, K2>>, <<K1, K1, K2>>}, {"obj"})
               \cup QueryCalls(3, 2)
-              \cup UpdateCalls({<<K1>>, <<K2>>, <<K1, K1>>, <<K1, K2>>, <<K1, "", K2>>, <<K1, K2, K1>>})
+              \cup UpdateCalls({<<K1>>, <<K1, K1>>, <<K1, K2>>, <<K1, "", K2>>})      \* more targets: flow config, thorough
               \cup DeleteCalls(PathsE(2) \cup Seqs(K, 3, 3))
               \cup FuwCalls(Seqs(K, 0, 2) \cup {<<K1, K2, K1>>}))   \* evaluated once, not lazily at every use
 CallsThorough == TLCEval( DefaultCalls(Seqs(K, 1, 2), DVsAll)
